@@ -20,13 +20,17 @@ func VerifH_C16_WriteFaults() {
 	vAssert("open", err == nil)
 	base := f.calls
 	// the fault hits one of the next write calls
-	f.failAt = base + vChoose("faultCall", 8)
+	nput, ncall := 2, 8
+	if vTier() == 1 {
+		nput, ncall = 3, 12 // three puts in the thorough tier
+	}
+	f.failAt = base + vChoose("faultCall", ncall)
 	f.failShort = vInt("faultShort")
 	vAssume(f.failShort >= 0 && f.failShort <= 8)
 
 	var okPuts []vEntry
 	var all []vEntry
-	for i := 0; i < 2; i++ {
+	for i := 0; i < nput; i++ {
 		b := vValidBlockT("blk", 1)
 		all = append(all, b)
 		vNoCollisions(all)
